@@ -636,8 +636,8 @@ func RunC16(tier string, seed int64) int {
 		n1, n2 = 600000, 20000
 	}
 	obs := &c16obs{}
-	common.ParallelFor(n1, runtime.NumCPU()*2, func(i int) { c16Level1(ctx, run, obs, i) })
-	common.ParallelFor(n2, runtime.NumCPU()*2, func(i int) { c16Level2(ctx, run, obs, i) })
+	common.QuietFirst(n1, 400, runtime.NumCPU()*2, func(i int) { c16Level1(ctx, run, obs, i) })
+	common.QuietFirst(n2, 60, runtime.NumCPU()*2, func(i int) { c16Level2(ctx, run, obs, i) })
 	nsig := 0
 	obs.sigs.Range(func(k, v interface{}) bool { nsig++; return true })
 	run.Extra("observed", map[string]int64{"level1_schedules": obs.l1, "level1_distinct_event_orders": int64(nsig), "level2_scenarios": obs.l2,
